@@ -16,6 +16,7 @@ CHECKS = {
  "C05": dict(engine="symtorch+z3", tech="symbolic execution of gibbs_steps with a recording Bernoulli stub (all outcomes unrolled); conditionals, termwise detailed balance and chain structure decided by z3 on residuals", design="2/C05"),
  "C08": dict(engine="symtorch+z3", tech="symbolic execution of the observables' apply on the full basis, exactly weighted, vs Tr(rho O) from Pauli definitions; z3 on residuals", design="2/C08"),
  "C09": dict(engine="symtorch+z3", tech="symbolic execution of SWAP.apply on all ordered pairs, exactly weighted, vs explicit partial trace; sum-of-squares certificate; z3 on residuals", design="2/C09"),
+ "C10": dict(engine="symtorch+z3", tech="symbolic execution of fidelity/NLL/KL with symbolic models and symbolic targets vs the defining formulas; opaque logs with normal-form congruence; z3 on residuals", design="2/C10"),
  "C15": dict(engine="symtorch+z3", tech="symbolic execution of every cplx function vs complex-scalar arithmetic; z3 on residuals", design="2/C15"),
 }
 CHECKS.update(json.load(open(os.path.join(HERE, "bin", "manifest_extra.json"))) if os.path.exists(os.path.join(HERE, "bin", "manifest_extra.json")) else {})
